@@ -96,9 +96,15 @@ class VecEval:
                 return r(args[0])
             if "array<double" in (n.get("t") or "") and args:
                 return tuple(r(a) for a in args)
-            if "array<double, " in (n.get("t") or "") and not args:
-                n_ = int((n.get("t") or "").split("array<double, ")[1].split(">")[0])
-                return tuple(sp.Symbol("uninitialised_%d_%d" % (n.get("i", 0), q)) for q in range(n_))
+            if "array<" in (n.get("t") or "") and not args:
+                import re as _re
+                t_ = (n.get("t") or "").replace("std::", "").replace("const ", "")
+                m2 = _re.match(r"^array<array<double, (\d+)>, (\d+)>", t_)
+                if m2:
+                    return tuple(tuple(sp.Symbol("uninitialised_%d_%d_%d" % (n.get("i", 0), a_, b_)) for b_ in range(int(m2.group(1)))) for a_ in range(int(m2.group(2))))
+                m1 = _re.match(r"^array<double, (\d+)>", t_)
+                if m1:
+                    return tuple(sp.Symbol("uninitialised_%d_%d" % (n.get("i", 0), q)) for q in range(int(m1.group(1))))
             raise AnalysisBroken("constructor %s" % norm.render(P, n)[:50])
         if k == "UnaryOperator":
             v = r(c[0])
@@ -220,6 +226,8 @@ class VecEval:
                 return vals[0]
             if vals and not any(isinstance(v, tuple) for v in vals):
                 return tuple(vals)
+            if vals and all(isinstance(v, tuple) for v in vals):
+                return tuple(vals)          # rows of a matrix
             raise AnalysisBroken("initialiser list %s" % norm.render(P, n)[:40])
         if k == "ConditionalOperator":
             cv = r(c[0])
@@ -251,6 +259,25 @@ class VecEval:
     # ---- statements --------------------------------------------------------------------------
     def assign_to(self, lhs, val, op="="):
         lhs0 = sc(lhs)
+        # X[i][j]... = v on (nested) tuples with concrete indices
+        chain = []
+        cur_ = lhs0
+        while True:
+            s_ = astq.subscript(cur_)
+            if not s_:
+                break
+            chain.append(s_[1])
+            cur_ = sc(s_[0])
+        if len(chain) >= 2 and cur_ is not None and cur_.get("k") == "DeclRefExpr" and isinstance(self.env.get(cur_["r"]), tuple):
+            idx = [self.ev(i_) for i_ in reversed(chain)]
+            if all(getattr(i_, "is_Integer", False) for i_ in idx):
+                def upd(t, path):
+                    k_ = int(path[0])
+                    if len(path) == 1:
+                        return tuple(self.combine(t[q], val, op) if q == k_ else t[q] for q in range(len(t)))
+                    return tuple(upd(t[q], path[1:]) if q == k_ else t[q] for q in range(len(t)))
+                self.env[cur_["r"]] = upd(self.env[cur_["r"]], idx)
+                return
         s = astq.subscript(lhs0)
         if s:
             b = sc(s[0])
@@ -318,6 +345,29 @@ class VecEval:
             kids = [x for x in s["c"] if x is not None]
             lhs, rhs = kids[-2], kids[-1]
             self.assign_to(lhs, self.ev(rhs), s.get("op"))
+        elif k == "ForStmt":
+            init, cond, inc, body = s["c"][0], s["c"][1], s["c"][2], s["c"][3]
+            iv = init["c"][0] if init is not None and init.get("k") == "DeclStmt" and init.get("c") else None
+            inc0 = sc(inc) if inc is not None else None
+            if iv is None or iv.get("k") != "VarDecl" or not iv.get("c") or inc0 is None or inc0.get("k") != "UnaryOperator" or inc0.get("op") != "++" \
+                    or not astq.is_ref_to(inc0["c"][0], iv["r"]):
+                raise AnalysisBroken("loop that is not a counting loop")
+            val = self.ev(iv["c"][0])
+            if not getattr(val, "is_Integer", False):
+                raise AnalysisBroken("loop with a symbolic start")
+            count = 0
+            while True:
+                self.env[iv["r"]] = val
+                cv = self.ev(cond)
+                t = self.decide(cv, cond) if cv not in (sp.true, sp.false) else (cv == sp.true)
+                if not t:
+                    break
+                count += 1
+                if count > 64:
+                    raise AnalysisBroken("loop with more than 64 iterations")
+                self.stmt(body)
+                val = val + 1
+            return
         elif k in ("NullStmt",):
             return
         elif k == "DoStmt" and not any(y.get("k") in ("BinaryOperator", "CompoundAssignOperator", "CXXOperatorCallExpr", "CallExpr", "CXXMemberCallExpr", "ReturnStmt")
